@@ -88,7 +88,11 @@ func runC17(args []string) {
 			}
 			segs := []any{}
 			for j := 0; j < nseg; j++ {
-				segs = append(segs, c17Name(rng, 1+rng.Intn(24)))
+				nm := c17Name(rng, 1+rng.Intn(24))
+				if rng.Intn(6) == 0 {
+					nm += "-buildkite-plugin" // a name that already carries the suffix is still a name
+				}
+				segs = append(segs, nm)
 			}
 			ref := []any{}
 			if rng.Intn(2) == 0 {
